@@ -200,6 +200,9 @@ func (c *c04Case) build() (tpl string, data any, wantInst []string, wantElse boo
 		} else {
 			attrs = ` v-if="t"`
 		}
+	case "vifnone": // a per-item condition that is false for every item: the loop produces nothing
+		attrs = ` v-if="nope"`
+		keep = func(i int) bool { return false }
 	case "bind":
 		attrs = ` :data-v="` + valExpr + `"`
 		if c.Form == "ix" {
@@ -239,7 +242,14 @@ func (c *c04Case) build() (tpl string, data any, wantInst []string, wantElse boo
 		}
 		wantInst = append(wantInst, s)
 	}
-	wantElse = c.Else != "none" && len(items) == 0
+	nKept := 0
+	for i := range items {
+		if keep(i) {
+			nKept++
+		}
+	}
+	// the v-else sibling is rendered exactly when the loop produced nothing
+	wantElse = c.Else != "none" && nKept == 0
 	// outer value of the loop variable name
 	m := map[string]any{"o": map[string]any{}, "outer": "OUT", "t": true, "name": "ROOTNAME"}
 	if present {
@@ -538,10 +548,10 @@ func init() {
 	core.Register(&core.Check{
 		ID:    "C04",
 		Level: "exploration",
-		Rule: "every combination of collection kind (15: incl. slices with nil items, slices of any/int/int32/string/bool/map/struct/*struct, array, nil slice, nil value, missing) x length x access path x loop form x loop-variable name (fresh / shadows a map key / shadows a root struct field by name / by JSON tag) x v-else (none/adjacent/after whitespace) x looped element (plain, v-if, bindings, <template>) x root data (map/struct/*struct) x printing position ({{ }}, expression); plus nested loops; plus a body part: 23 ways a loop body can consume the item (text, deep text, interpolated/bound attribute, :class, :style, v-text, v-html, <template v-html>, v-show, inner v-if/v-else, <template :var>, include with bound / interpolated prop, slot content used once / twice, prop-less include, v-slot template without props, include without content, inner v-for, filters, pre) x 1..3 items x loop form x looped element x entry point, with the oracle: instance i shows item i and no other item and equals the single instance of a loop over [item i] alone, and the outer variables named like the loop variables have their outer values before and after the loop. " +
+		Rule: "every combination of collection kind (15: incl. slices with nil items, slices of any/int/int32/string/bool/map/struct/*struct, array, nil slice, nil value, missing) x length x access path x loop form x loop-variable name (fresh / shadows a map key / shadows a root struct field by name / by JSON tag) x v-else (none/adjacent/after whitespace) x looped element (plain, per-item v-if keeping some / no items, bindings, <template>) x root data (map/struct/*struct) x printing position ({{ }}, expression); plus nested loops; plus a body part: 23 ways a loop body can consume the item (text, deep text, interpolated/bound attribute, :class, :style, v-text, v-html, <template v-html>, v-show, inner v-if/v-else, <template :var>, include with bound / interpolated prop, slot content used once / twice, prop-less include, v-slot template without props, include without content, inner v-for, filters, pre) x 1..3 items x loop form x looped element x entry point, with the oracle: instance i shows item i and no other item and equals the single instance of a loop over [item i] alone, and the outer variables named like the loop variables have their outer values before and after the loop. " +
 			"oracle: reference interpreter gives the instance list, for-else presence and the value of the loop variable's name before and after the loop. non-trivial = at least one item",
 		Bounds:      map[string]string{"quick": "lengths 0..2, nesting depth 2", "thorough": "lengths 0..3, nesting depth 2"},
-		Assumptions: []string{"iteration over maps is C10's subject, not enumerated here", "v-else after an element carrying both v-for and v-if is ambiguous and not generated"},
+		Assumptions: []string{"iteration over maps is C10's subject, not enumerated here"},
 		Decode:      core.DecodeAs[c04Case](),
 		Enumerate: func(tier string, emit func(core.Case)) {
 			maxLen := 2
@@ -584,10 +594,7 @@ func init() {
 						for _, form := range []string{"x", "ix"} {
 							for _, v := range []string{"it", "outer", "Outer", "name", "Name"} {
 								for _, el := range []string{"none", "adj", "ws"} {
-									for _, elem := range []string{"plain", "vif", "bind", "tmpl"} {
-										if elem == "vif" && el != "none" {
-											continue
-										}
+									for _, elem := range []string{"plain", "vif", "vifnone", "bind", "tmpl"} {
 										for _, root := range []string{"map", "struct", "ptr"} {
 											for _, pr := range []string{"must", "expr"} {
 												emit(&c04Case{Coll: coll, Len: n, Path: path, Form: form, Var: v, Else: el, Elem: elem, Root: root, Print: pr, Entry: "string"})
